@@ -549,7 +549,7 @@ def struct_unpack(interp, fmt, data):
 
 
 def seq_method(interp, recv, name, args, kwargs):
-    sym = is_sym(recv) or core.deep_sym(args)
+    sym = is_sym(recv) or core.deep_sym(args) or core.deep_sym(kwargs)  # keyword arguments too ("...".format(name=x))
     if not sym:
         return getattr(recv, name)(*args, **kwargs)
     kind = kind_of(recv)
